@@ -268,9 +268,11 @@ def main(argv=None):
                 known_hits.append((f, known_ids[f['id']]))
             else:
                 violations.append((r, f))
-    total_ob = sum(len(r['obligations']) for r in results)
+    # bounded stand-ins are run and can raise violations, but are never counted as proved
+    bounded_ids = set(o for r in results for o in r.get('bounded_obligations', []))
+    total_ob = sum(1 for r in results for o in r['obligations'] if o not in bounded_ids)
     failed_ids = set(f['id'] for r in results for f in r['failed'])
-    discharged = sum(1 for r in results for o in r['obligations'] if o not in failed_ids and r['status'] != 'undecided')
+    discharged = sum(1 for r in results for o in r['obligations'] if o not in failed_ids and o not in bounded_ids and r['status'] != 'undecided')
     wall = time.time() - t0
     replay_path = None
     witnesses = []
@@ -356,6 +358,7 @@ def build_evidence(pid, P, tier, seed, results, total_ob, discharged, wall, viol
         'functions_under_contract': fns,
         'all_obligations': [o for r in results for o in r['obligations']],
         'bounded_not_counted_as_proved': bounded,
+        'bounded_obligations_checked': [o for r in results for o in r.get('bounded_obligations', [])],
         'known_findings_hit': [f['id'] for f, _ in known_hits],
         'witnesses': witnesses,
         'explanation': P.get('explanation', ''),
